@@ -311,6 +311,7 @@ func (p *Path) eqValuesMode(x, y Value, deep bool) *Term {
 		switch a := x.(type) {
 		case VBig:
 			if b, ok := y.(VBig); ok {
+				a, b = a.cur(), b.cur()
 				if a.Nil || b.Nil {
 					return BoolC(a.Nil && b.Nil)
 				}
